@@ -37,25 +37,43 @@ func init() {
 				})
 				return found
 			}
+			// (of several such points — the header and the body of a counting loop both read the list — the one that
+			// dominates the others)
 			var loopHead *ssa.BasicBlock
+			var cands []*ssa.BasicBlock
 			for _, b := range fn.Blocks {
-				if loopHead != nil {
-					break
-				}
 				for _, in := range b.Instrs {
+					isCand := false
 					if ld, ok := in.(*ssa.UnOp); ok && ld.Op == token.MUL {
 						if _, p := accessPath(ld); len(p) > 0 && p[len(p)-1] == "Warnings" {
-							loopHead = b
-							break
+							isCand = true
 						}
 					}
 					if call, ok := in.(*ssa.Call); ok {
 						if h := call.Call.StaticCallee(); h != nil && c.P.InModule(h) && len(h.Blocks) > 0 && readsWarnings(h) {
-							loopHead = b
-							break
+							isCand = true
 						}
 					}
+					if isCand {
+						cands = append(cands, b)
+						break
+					}
 				}
+			}
+			for _, b := range cands {
+				all := true
+				for _, o := range cands {
+					if o != b && !b.Dominates(o) {
+						all = false
+					}
+				}
+				if all {
+					loopHead = b
+					break
+				}
+			}
+			if loopHead == nil && len(cands) > 0 {
+				loopHead = cands[0]
 			}
 			if loopHead == nil {
 				c.Unresolved("warnings-loop", "no point that adds the Warnings setting to the response found in the router")
